@@ -47,6 +47,7 @@ def gen_case(rng, tier):
     c["patients"] = gen_mpatients(rng, mods, lnls)
     c["t"] = list(c["dists"])[0]
     c["boundary"] = rng.choice([None, None, "midext0", "midext1", "mixing0", "mixing1"])
+    c["n_updates"] = rng.choice([0, 1, 2])
     return c
 
 
@@ -65,6 +66,19 @@ def build(case):
     elif b == "mixing1" and "mixing" in vals:
         vals["mixing"] = 1.0
     m.set_params(**vals)
+    # follow-up partial keyword updates (a multi-step history: only some names are re-set)
+    for _ in range(case.get("n_updates", 0)):
+        r = rng.random()
+        if r < 0.4:
+            sub = [rng.choice(names)]                       # a single parameter
+        elif r < 0.8:                                       # all / some parameters of one group (ipsi_*, contra_*, ...)
+            grp = rng.choice(sorted({n.split("_")[0] for n in names}))
+            sub = [n for n in names if n.split("_")[0] == grp]
+            if len(sub) > 1 and rng.random() < 0.5:
+                sub = rng.sample(sub, rng.randint(1, len(sub)))
+        else:
+            sub = rng.sample(names, rng.randint(1, max(1, len(names) // 2)))
+        m.set_params(**{n: gen.gen_value(rng) for n in sub})
     return m
 
 
@@ -175,6 +189,10 @@ def candidates(case):
     if case.get("boundary"):
         c = copy.deepcopy(case)
         c["boundary"] = None
+        out.append(c)
+    if case.get("n_updates", 0) > 0:
+        c = copy.deepcopy(case)
+        c["n_updates"] -= 1
         out.append(c)
     return out
 
